@@ -863,6 +863,9 @@ class Builder:
 
         # if self._mem_mgr.is_register_active(loop_register):
         #     raise ValueError("Register used for looping should not already be active")
+        if activate:
+            # an explicitly given loop register is reserved like an automatically chosen one
+            self._mem_mgr.add_active_register(loop_register)
         return loop_register
 
     def _loop_get_entry_commands(
